@@ -101,6 +101,7 @@ func replay(h history) (o obs) {
 	i := interp.New(interp.Options{Stdout: new(bytes.Buffer), Stderr: new(bytes.Buffer)})
 	i.Use(stdlib.Symbols)
 	host := map[string]func() int{}
+	progs := map[string]*interp.Program{}
 	kinds := append([]string(nil), h.Kinds...)
 	sort.Strings(kinds)
 	if _, err := i.Eval("import \"time\""); err != nil { // for the blocking definitions; imported once
@@ -124,6 +125,13 @@ func replay(h history) (o obs) {
 			return
 		}
 		host[k] = f
+		// the call compiled once, before the history begins
+		pr, err := i.Compile(d.call)
+		if err != nil {
+			o.Setup = "compile of the call of " + k + ": " + err.Error()
+			return
+		}
+		progs[k] = pr
 	}
 	for n, s := range h.Hist {
 		if s.Op == "cancel" {
@@ -194,6 +202,16 @@ func replay(h history) (o obs) {
 				}
 			case "host":
 				got = host[s.Kind]()
+			case "prog":
+				var v reflect.Value
+				if v, err = i.Execute(progs[s.Kind]); err == nil {
+					got = int(v.Int())
+				}
+			case "progctx":
+				var v reflect.Value
+				if v, err = i.ExecuteWithContext(context.Background(), progs[s.Kind]); err == nil {
+					got = int(v.Int())
+				}
 			}
 		}()
 		select {
